@@ -19,6 +19,17 @@ NARROWING = RESTRICTING + ('intersection', 'difference', 'symmetric_difference',
 SET_TY = r'(BTreeSet|HashSet)'
 
 
+DIFF_VIEW = re.compile(r'::(peekable|into_iter|iter|by_ref|cloned|copied|rev|fuse|collect|from_iter)$')
+DIFF_FIRST = ('next', 'peek', 'peek_mut', 'next_back', 'last', 'min', 'max', 'first')
+
+
+class OptionGuard:
+    """a `match` / `if let` on an Option seen as a test: true side = the None arm"""
+    def __init__(self, body, sb, none_bb, some_bb):
+        self.body = body; self.switch_bb = sb; self.true_bb = none_bb; self.false_bb = some_bb
+    def describe(self): return 'match bb%d: None->bb%s Some->bb%s' % (self.switch_bb, self.true_bb, self.false_bb)
+
+
 def local_op(l):
     return {'k': 'copy', 'pl': {'l': l, 'p': []}}
 
@@ -34,20 +45,34 @@ def subset_tests(ctx, body):
         # (1) a.is_subset(&b)                      (2) b.is_superset(&a)
         if c.item == 'is_subset' and re.search(SET_TY, c.name): out.append((c.dst['l'], c.bb, True, c.args[0], c.args[1], 'a.is_subset(b)'))
         if c.item == 'is_superset' and re.search(SET_TY, c.name): out.append((c.dst['l'], c.bb, True, c.args[1], c.args[0], 'b.is_superset(a)'))
-        # (3) a.difference(&b).next().is_none()    (4) .next().is_some() [negated]    (5) a.difference(&b).count() == 0
+        # (3..5) emptiness of a.difference(&b), looked at through any view or complete copy of it
+        #   d.next() / d.peek() / d.last() / d.min() / d.max()  .is_none() | .is_some() | `if let Some(_) = ..` / `match`
+        #   d.count() == 0 | != 0 | > 0,   d.collect::<Vec<_>>().is_empty() / .len() == 0
+        #   with d = a.difference(&b) [.peekable() | .into_iter() | .by_ref() | .cloned() | .copied() | .rev() | .fuse() | .collect()]
         if c.item == 'difference' and re.search(SET_TY, c.name):
+            views = {c.dst['l']}
+            for _ in range(4):
+                for c2 in body.calls:
+                    if c2.args and not c2.dst['p'] and c2.dst['l'] not in views and DIFF_VIEW.search(T.strip_generics_tail(c2.name)) and pe.root_of(body, c2.args[0]) in views:
+                        views.add(c2.dst['l'])
             for c2 in body.calls:
-                if c2.args and pe.root_of(body, c2.args[0]) == c.dst['l']:
-                    if c2.item == 'next':
-                        for c3 in body.calls:
-                            if c3.item in ('is_none', 'is_some') and c3.args and pe.root_of(body, c3.args[0]) == c2.dst['l']:
-                                out.append((c3.dst['l'], c3.bb, c3.item == 'is_none', c.args[0], c.args[1], 'a.difference(b).next().%s()' % c3.item))
-                    if c2.item == 'count':
-                        for bi, st in body.stmts():
-                            rv = st['rv']
-                            if rv['k'] == 'bin' and rv['op'] in ('Eq', 'Ne', 'Gt') and any(o['k'] in ('copy', 'move') and T.expr(body, o)[0] == 'call' and T.expr(body, o)[4] == c2.bb for o in rv['ops']) \
-                                    and any(o['k'] == 'const' and o['v'] == '0_usize' for o in rv['ops']):
-                                out.append((st['dst']['l'], bi, rv['op'] == 'Eq', c.args[0], c.args[1], 'a.difference(b).count() %s 0' % rv['op']))
+                if not c2.args or pe.root_of(body, c2.args[0]) not in views: continue
+                how = 'a.difference(b)..%s()' % c2.item
+                if c2.item in DIFF_FIRST:
+                    o = c2.dst['l']
+                    for c3 in body.calls:
+                        if c3.item in ('is_none', 'is_some') and c3.args and pe.root_of(body, c3.args[0]) == o:
+                            out.append((c3.dst['l'], c3.bb, c3.item == 'is_none', c.args[0], c.args[1], how + '.%s()' % c3.item))
+                    gs = [OptionGuard(body, sb, m.get(0, els), m.get(1, els)) for sb, m, els in T.option_arms(body, o)]
+                    if gs: out.append((gs, c2.bb, True, c.args[0], c.args[1], how + ' matched'))
+                if c2.item in ('count', 'len'):
+                    for bi, st in body.stmts():
+                        rv = st['rv']
+                        if rv['k'] == 'bin' and rv['op'] in ('Eq', 'Ne', 'Gt') and any(o['k'] == 'const' and o['v'] == '0_usize' for o in rv['ops']) \
+                                and any(o['k'] in ('copy', 'move') and len(T.expr(body, o)) > 4 and T.expr(body, o)[0] == 'call' and T.expr(body, o)[4] == c2.bb for o in rv['ops']):
+                            out.append((st['dst']['l'], bi, rv['op'] == 'Eq', c.args[0], c.args[1], how + ' %s 0' % rv['op']))
+                if c2.item == 'is_empty':
+                    out.append((c2.dst['l'], c2.bb, True, c.args[0], c.args[1], how))
     # (6) m.is_empty()  /  m.len() == 0   where m collects the elements of a that b does not contain
     #        for x in &a { if !b.contains(x) { m.push(*x) } }   ==   a.iter().filter(|x| !b.contains(x)).cloned().collect()
     diffs = difference_collections(ctx, body, items)
@@ -214,7 +239,7 @@ def check(ctx):
         tests = subset_tests(ctx, body)
         best = None; seen = []
         for l, bb, pol, A, B, how in tests:
-            for g in T.guards_from_local(body, l, bb):
+            for g in (l if isinstance(l, list) else T.guards_from_local(body, l, bb)):
                 ctx.counters['cfg_paths'] += 1
                 seen.append('%s: %s' % (how, g.describe()))
                 if pe.guard_requires(body, g, pol) and pe.before_every_ok(body, {g.switch_bb}) and operands_ok(A, B): best = (how, g, bb); break
@@ -289,6 +314,15 @@ def check(ctx):
             for f in FIELDS:
                 carry_sources(ctx, 'C10.carry/with_parameters/' + f, body, src.get(f, []), f, need_fields=[(PI, f)])
             carry_sources(ctx, 'C10.carry/with_parameters/parameters', body, src.get('parameters', []), 'parameters', need_params=[2], not_fields=[(PI, 'parameters')])
+            # "constraint IDs, removed constraints .. unchanged": the list fields are carried completely (moved, or rebuilt element by element)
+            for f in ('constraints', 'decision_variables', 'removed_constraints', 'decision_variable_dependency'):
+                vs = {pe.complete_field_copy(ctx, body, op, PI, f) for op in src.get(f, [])} or {'unknown'}
+                rule = 'C10.carry/with_parameters/%s-complete' % f
+                if 'no' in vs: ctx.bad(rule, 'T-CARRY', body.name, 'field `%s` of the result is rebuilt from self.%s without some of its elements (conditional push / filter / retain)' % (f, f), body.site())
+                elif vs == {'yes'}: ctx.ok(rule, 'T-CARRY', body.site())
+                else:
+                    ctx.ok(rule, 'T-CARRY', body.site())          # weaker, decided: no evidence of dropped elements (dependence on self.<f> is C10.carry/../<f>)
+                    ctx.undecided('C10.exact/carry/%s-complete' % f, 'T-CARRY', body.site(), 'cannot decide how field `%s` of the result is built from self.%s' % (f, f))
             some = bool(src.get('parameters'))
             for op in src.get('parameters', []):
                 ex = T.strip_wrappers(T.expr(body, op)) if op['k'] in ('copy', 'move') else ('const',)
@@ -314,7 +348,7 @@ def check(ctx):
                     ctx.check(not others, 'C10.from/%s/only' % f, 'T-CARRY', fb.name, 'field `%s` also depends on %s' % (f, others), fb.site())
             carry_sources(ctx, 'C10.from/parameters', fb, src.get('parameters', []), 'parameters', not_fields=[(INST, 'parameters')])
     pe.unmark(ctx)
-    ctx.floor('C10.guard', 1); ctx.floor('C10.apply', 13); ctx.floor('C10.carry', 12); ctx.floor('C10.from', 17)
+    ctx.floor('C10.guard', 1); ctx.floor('C10.apply', 13); ctx.floor('C10.carry', 16); ctx.floor('C10.from', 17)
 
 
 def carry_sources(ctx, rule, body, ops, what, need_fields=(), not_fields=(), need_params=()):
